@@ -14,7 +14,7 @@ PROPERTY = "C21"
 FUNCTIONS = ["wannierberri.symmetry.orbitals.Orbitals.__init__ (hybrid matrices)", "Orbitals.rot_orb_basis", "Orbitals.rot_orb",
              "OrbitalRotator.__call__ (cache, irot, ';'-joined shells, local bases)"]
 BOUNDS = dict(
-    quick=dict(shells="s p d sp3 over all of O(3); sp p2 pxy sp2 pz over the stabiliser of their span (axis rotations x reflections); "
+    quick=dict(shells="s p d sp3 over all of O(3) (f: one symbolic proper rotation and its negative: orthogonality, parity, defining relation); sp p2 pxy sp2 pz over the stabiliser of their span (axis rotations x reflections); "
                       "t2g eg sp3d2 over O_h (48 signed permutation matrices)",
                rotation="R = sigma*M(q), q a symbolic unit quaternion (4 reals on the 3-sphere), sigma=+-1; axis families: symbolic angle (unit-circle atoms)",
                composition="one symbolic factor times concrete signed permutation matrices, both orders (all 48 for s p sp3; the 3 generators of O_h "
@@ -25,7 +25,8 @@ EXPLANATION = ("The real rot_orb_basis/rot_orb/OrbitalRotator run with the rotat
                "axis angle); np.linalg.inv is the exact adjugate inverse whose nine entries travel through the function's own sympy algebra as symbols, "
                "sympy.sqrt(3.0) etc. and the doubles 1/sqrt(k) of hybrids_coef are algebraic atoms (w_p^2=p, w_p>0), and every value stored into the "
                "result array is converted exactly (sympy Floats as binary rationals) into a polynomial in q.  A.A^T=1, A(1)=1 and the composition law "
-               "are polynomial identities modulo |q|^2=1 decided by normal form + z3.")
+               "are polynomial identities modulo |q|^2=1 decided by normal form + z3; so are the parity law A(-R) = (-1)^l A(R) and, for the complete shells, "
+               "the defining relation phi_j(R^-1 r) = sum_i phi_i(r) A_ij at a symbolic point r with the package's own orbital polynomials.")
 ASSUMPTIONS = ["hybrid sets whose span is a proper subspace of the shells involved (sp p2 pxy sp2 pz t2g eg sp3d2) are rotated only by elements of the "
                "stabiliser of that span (site-symmetry operations in local bases - the only way Dwann/Projection call them); outside it rot_orb returns "
                "a projection that cannot be orthogonal",
@@ -34,7 +35,8 @@ OUTSIDE = ["second sentence of the property: unitarity / centre mapping of Dwann
            "quick tier: the f shell, and improper first factors in the two-symbolic-factor law for d (both in the thorough tier)",
            "OrbitalRotator identifies rotations closer than its tolerance 1e-4 (UniqueList); cache lookups are exercised with well separated rotations only",
            "rounding of the double arithmetic (real-number semantics of the code)"]
-STUBS = ["np.linalg.inv on the symbolic rotation: exact adjugate/determinant (no assumption); its entries are handed to the function's sympy algebra as "
+STUBS = ["np.linalg.det on the symbolic rotation: exact determinant (normalises to the constant sigma = +-1)",
+         "np.linalg.inv on the symbolic rotation: exact adjugate/determinant (no assumption); its entries are handed to the function's sympy algebra as "
          "fresh symbols and substituted back exactly when the function stores a matrix element",
          "sympy.sqrt(k.0) -> product of algebraic atoms w_p (p prime, w_p^2=p, w_p>0) instead of a 53-bit Float",
          "np.zeros in orbitals.py -> object array converting stored sympy expressions to exact polynomials",
@@ -179,6 +181,18 @@ class Lin(LinalgProxy):
         return out
 
 
+    def det(s, a):
+        """exact determinant of the symbolic rotation; it normalises to the constant +-1 (unit quaternion / unit circle rewrite), so a
+        comparison such as det(R) < 0 in the code under test is decided like on concrete input"""
+        if not is_sym(a):
+            return s._r.det(a)
+        b = np.empty(np.shape(a), dtype=object)
+        for i in np.ndindex(*b.shape):
+            b[i] = from_sympy(a[i])
+        d = SymC.of(LinalgProxy.det(s, b))
+        return float(d) if d.isconst() else d
+
+
 class Np(NpProxy):
     def zeros(s, shape, dtype=None, **k):
         a = np.empty(shape, dtype=object)
@@ -266,7 +280,7 @@ def as_sympy(R):
             fr = v.fraction()[0]
             out[i] = sympy.Rational(fr.numerator, fr.denominator)
         else:
-            nm = f"rot{k}_{i[0]}{i[1]}"
+            nm = f"rot{k}_" + "".join(map(str, i))
             _SYM[nm] = v
             out[i] = sympy.Symbol(nm, real=True)
     return out
@@ -277,13 +291,49 @@ def rotate(shell, R, **kw):
     return O.OrbitalRotator()(shell, rot_cart=as_sympy(R), **kw)
 
 
+def parity(shell):
+    """matrix of the inversion in the orbital set: (-1)^l on a complete shell, M.diag((-1)^l of each basis function).M^T on a hybrid set"""
+    n = O.num_orbitals(shell)
+    if shell in O.basis_shells_list:
+        return eye(n) * (-1) ** "spdf".index(shell)
+    orb = O.get_orbitals()
+    M = orb.hybrid_matrix_dic[shell]
+    D = lift(np.zeros((M.shape[1], M.shape[1])))
+    for st, en, sh in zip(orb.hybrid_matrix_shells_start[shell], orb.hybrid_matrix_shells_start[shell][1:], orb.hybrid_matrix_shells_dic[shell]):
+        for k in range(st, en):
+            D[k, k] = SymC.of((-1) ** "spdf".index(sh))
+    return M @ D @ M.T
+
+
+_POINT = []
+
+
+def defining_relation(rec, shell, R, A):
+    """docstring of rot_orb_basis: phi_j(R^-1 r) = sum_i phi_i(r) A_ij, with the package's own orbital polynomials at a symbolic point r"""
+    if not _POINT:
+        _POINT.extend(SymC.var(n) for n in ("rx", "ry", "rz"))
+        for v, n in zip(_POINT, ("rx", "ry", "rz")):
+            _SYM[n] = v
+    r = sarr(list(_POINT))
+    Rinv = LinalgProxy(np.linalg).inv(np.asarray(R, dtype=object)) if is_sym(R) else lift(np.linalg.inv(R))
+    rp = as_sympy(Rinv @ r)
+    rs = [sympy.Symbol(n, real=True) for n in ("rx", "ry", "rz")]
+    phis = O.get_orbitals().orb_function_dic[shell]
+    lhs = sarr([from_sympy(sympy.sympify(f(*rp))) for f in phis])
+    rhs = sarr([from_sympy(sympy.sympify(f(*rs))) for f in phis]) @ A
+    rec.eq("phi_j(R^-1 r) = sum_i phi_i(r) A_ij", lhs, rhs, key=f"rot_orb({shell}) does not describe how the orbitals transform")
+
+
 def obligations(rec, shell, R, concrete, both_orders=True):
-    """orthogonality of A(R) and the composition law with each concrete factor"""
+    """orthogonality of A(R), parity A(-R) = P.A(R), the defining relation (complete shells) and the composition law with each concrete factor"""
     A = rotate(shell, R)
     n = O.num_orbitals(shell)
     rec.concrete("shape", np.shape(A) == (n, n), f"{np.shape(A)}", key=f"rot_orb({shell}) has the wrong shape")
     rec.eq("A.A^T = 1", A @ A.T, eye(n), key=f"rot_orb({shell}) not orthogonal")
     rec.eq("A^T.A = 1", A.T @ A, eye(n), key=f"rot_orb({shell}) not orthogonal")
+    rec.eq("A(-R) = (-1)^l A(R)", rotate(shell, -R), parity(shell) @ A, key=f"rot_orb({shell}) parity under inversion")
+    if shell in O.basis_shells_list:
+        defining_relation(rec, shell, R, A)
     for i, R0 in enumerate(concrete):
         A0 = rotate(shell, R0)
         rec.eq(f"A(R)A(R0) = A(R.R0)  [R0 #{i}]", A @ A0, rotate(shell, R @ lift(R0)), key=f"rot_orb({shell}) composition law")
@@ -306,7 +356,8 @@ def case_full(rec, shell, sigma, concrete):
     R0s = [OH[i] for i in concrete]
 
     def body(rec):
-        rec.witness = lambda env: dict(test="full", shell=shell, sigma=sigma, q=[env.val(x) for x in q], R0=[r.tolist() for r in R0s])
+        rec.witness = lambda env: dict(test="full", shell=shell, sigma=sigma, q=[env.val(x) for x in q], R0=[r.tolist() for r in R0s],
+                                       r=[env.val(x) for x in _POINT])
         identity_obligation(rec, shell)
         obligations(rec, shell, R, R0s)
     rec.explore(body)
@@ -365,6 +416,7 @@ def case_oh(rec, shell):
         find = lambda M: next(k for k, X in enumerate(OH) if np.array_equal(X, M))
         for i, A in enumerate(As):
             rec.eq(f"A.A^T = 1 [O_h #{i}]", A @ A.T, eye(n), key=f"rot_orb({shell}) not orthogonal")
+            rec.eq(f"A(-R) = P.A(R) [O_h #{i}]", As[find(-OH[i])], parity(shell) @ A, key=f"rot_orb({shell}) parity under inversion")
             for g in GENERATORS:
                 rec.eq(f"A(R)A(g) = A(R.g) [O_h #{i}]", A @ As[find(g)], As[find(OH[i] @ g)], key=f"rot_orb({shell}) composition law")
     rec.explore(body)
@@ -415,6 +467,8 @@ def cases(tier, seed):
     gens = [next(i for i, M in enumerate(OH) if np.array_equal(M, g)) for g in GENERATORS]
     all48 = gens + [i for i in range(48) if i not in gens]
     for sigma in (1, -1):
+        if q and sigma == 1:     # f in the quick tier: orthogonality, parity A(-R) = -A(R) and the defining relation for one symbolic proper rotation
+            out.append(Case("full f sigma=+1 (no concrete factors)", case_full, dict(shell="f", sigma=1, concrete=[]), timeout=1100))
         for shell in ("s", "p", "sp3", "d") + (() if q else ("f",)):
             if shell == "d":       # 0.5 s of sympy per call: the concrete factors are split over several processes; quick = generators of O_h + 5 more
                 chunks = [all48[:4], all48[4:8]] if q else [all48[i::6] for i in range(6)]
@@ -460,9 +514,19 @@ def _axis(axis, cs):
     return R
 
 
+def _parity(sh):
+    from wannierberri.symmetry.orbitals import get_orbitals, num_orbitals
+    if sh in "spdf":
+        return np.eye(num_orbitals(sh)) * (-1) ** "spdf".index(sh)
+    orb = get_orbitals()
+    M, st = orb.hybrid_matrix_dic[sh], orb.hybrid_matrix_shells_start[sh]
+    D = np.concatenate([np.full(e - b, (-1.0) ** "spdf".index(x)) for b, e, x in zip(st, st[1:], orb.hybrid_matrix_shells_dic[sh])])
+    return M @ np.diag(D) @ M.T
+
+
 def replay(rec):
     """real OrbitalRotator on concrete doubles"""
-    from wannierberri.symmetry.orbitals import OrbitalRotator, num_orbitals
+    from wannierberri.symmetry.orbitals import OrbitalRotator, num_orbitals, get_orbitals
     w = rec["witness"]
     rot = lambda sh, R: OrbitalRotator()(sh, rot_cart=np.array(R, dtype=float))
     errs = {}
@@ -476,6 +540,14 @@ def replay(rec):
         A = rot(sh, R)
         chk("A(1)=1", rot(sh, np.eye(3)), np.eye(n))
         chk("A.A^T=1", A @ A.T, np.eye(n))
+        chk("A(-R)=(-1)^l A(R)", rot(sh, -np.asarray(R)), _parity(sh) @ A)
+        if sh in "spdf":
+            phis = get_orbitals().orb_function_dic[sh]
+            pts = [np.array(w["r"], dtype=float)] if any(w.get("r") or []) else []
+            pts += list(np.random.default_rng(3).normal(size=(4, 3)))
+            val = lambda r: np.array([float(f(*r)) for f in phis])
+            for r in pts:
+                chk("phi_j(R^-1 r)=sum_i phi_i(r) A_ij", val(np.linalg.inv(R) @ r), val(r) @ A)
         for R0 in R0s:
             R0 = np.array(R0)
             chk("A(R)A(R0)=A(R.R0)", A @ rot(sh, R0), rot(sh, R @ R0))
